@@ -12,7 +12,7 @@ RULE = ('cases = generated DSG spec (incl. zero selection choices, forced single
         'reference architecture (R-SEL/R-CONN), every reference architecture is the decode of some vector, a corrected '
         'vector decodes to itself, and the reachable set equals the COMPLETE encoder\'s when that one can be built; '
         'non-trivial = >= 1 vector corrected and >= 2 reference architectures; distinct by sha1(spec)')
-BUDGET = {'quick': 150, 'thorough': 5000}
+BUDGET = {'quick': 300, 'thorough': 5000}
 
 
 @st.composite
